@@ -5,6 +5,7 @@ import KfacVerif.Driver.Precond
 import KfacVerif.Driver.Alg
 import KfacVerif.Driver.NeoxLayer
 import KfacVerif.Driver.NeoxScript
+import KfacVerif.Driver.CommVal
 
 namespace KV.Driver
 
@@ -33,6 +34,7 @@ def dispatch (line : String) : String :=
     | "neoxl" => neoxLayerOp args
     | "neoxckpt" => neoxCkptOp args
     | "neoxs" => neoxScriptOp args
+    | "commv" => commValOp args
     | _ => "bad-op"
 
 end KV.Driver
